@@ -1279,9 +1279,13 @@ fn compile_sources_with_generics_preserved(
     generic_types: OrderSet::new(),
     type_synthesizer: TypeSynthesizer::new(),
   };
+  // Lower in module-name order, not in HashMap iteration order: the order decides the numbering of
+  // synthetic functions, types and string globals and the order of the specialisation roots.
+  let mut sorted_sources = sources.iter().collect_vec();
+  sorted_sources.sort_by_cached_key(|(mod_ref, _)| mod_ref.pretty_print(heap));
   let mut compiled_type_defs = Vec::new();
   let mut main_function_names = Vec::new();
-  for (mod_ref, source_module) in sources.iter() {
+  for (mod_ref, source_module) in sorted_sources.iter().copied() {
     for toplevel in &source_module.toplevels {
       if let source::Toplevel::Class(c) = &toplevel {
         type_lowering_manager.generic_types =
@@ -1316,7 +1320,7 @@ fn compile_sources_with_generics_preserved(
   let mut string_manager = StringManager::new();
   let mut next_synthetic_fn_id_manager = NextSyntheticFnIdManager { id: 0 };
   let mut compiled_functions = Vec::new();
-  for (module_reference, source_module) in sources.iter() {
+  for (module_reference, source_module) in sorted_sources.iter().copied() {
     for toplevel in &source_module.toplevels {
       if let source::Toplevel::Class(c) = &toplevel {
         compiled_functions.append(&mut lower_constructors(
